@@ -32,7 +32,7 @@ from typing import Any, Callable, Iterable
 VERIF = os.path.dirname(os.path.dirname(os.path.abspath(__file__)))
 LEAN = os.path.join(VERIF, "lean")
 REPO = os.environ.get("FRAME_REPO", "/repo")
-DRIVER = os.path.join(LEAN, ".lake", "build", "bin", "driver")
+BIN = os.path.join(LEAN, ".lake", "build", "bin")
 ALLOWED_AXIOMS = {"propext", "Classical.choice", "Quot.sound"}
 FORBIDDEN = re.compile(r"\bsorry\b|\badmit\b|^\s*axiom\s|native_decide|bv_decide|implemented_by|\bunsafe\s|maxHeartbeats\s+0")
 
@@ -69,14 +69,15 @@ def ulp_nudge(x: float, k: int) -> float:
 
 # ----------------------------------------------------------------------------- Lean side
 class LeanSide:
-    def __init__(self, pid: str):
+    def __init__(self, pid: str, drivers: list[str]):
         self.pid = pid
+        self.drivers = drivers
         self.build_ok = False
         self.driver_ok = False
         self.build_log = ""
         self.theorems: list[dict] = []
         self.audit_problems: list[str] = []
-        self.checker_cmd = f"cd lean && lake build FV.Props.{pid} driver && lake env lean <generated #print axioms audit of FV.Props.{pid}>"
+        self.checker_cmd = f"cd lean && lake build FV.Props.{pid} {' '.join(drivers)} && lake env lean <generated #print axioms audit of FV.Props.{pid}>"
 
     def _lake(self, args: list[str], timeout=3000) -> tuple[int, str]:
         lock = open(os.path.join(LEAN, ".build.lock"), "w")
@@ -89,14 +90,14 @@ class LeanSide:
             lock.close()
 
     def build(self) -> None:
-        rc, log = self._lake(["build", f"FV.Props.{self.pid}", "driver"])
+        rc, log = self._lake(["build", f"FV.Props.{self.pid}"] + self.drivers)
         self.build_log = log[-6000:]
         self.build_ok = rc == 0
         if rc == 0:
             self.driver_ok = True
         else:
-            rc2, log2 = self._lake(["build", "driver"])
-            self.driver_ok = rc2 == 0 and os.path.exists(DRIVER)
+            rc2, log2 = self._lake(["build"] + self.drivers)
+            self.driver_ok = rc2 == 0 and all(os.path.exists(os.path.join(BIN, d)) for d in self.drivers)
             if not self.driver_ok:
                 self.build_log += "\n--- driver build ---\n" + log2[-3000:]
 
@@ -177,11 +178,11 @@ class LeanSide:
         return self.build_ok and not self.audit_problems and all(t["ok"] for t in self.theorems)
 
 
-def run_driver(lines: list[str]) -> list[str]:
+def run_driver(lines: list[str], exe: str = "drv_geom") -> list[str]:
     """one request per line → one reply per line (compiled Lean driver)."""
     if not lines:
         return []
-    p = subprocess.run([DRIVER], input="\n".join(lines) + "\n", capture_output=True, text=True, timeout=3000)
+    p = subprocess.run([os.path.join(BIN, exe)], input="\n".join(lines) + "\n", capture_output=True, text=True, timeout=3000)
     out = p.stdout.split("\n")
     if out and out[-1] == "":
         out.pop()
@@ -232,10 +233,11 @@ class Ctx:
     def spec_fail(self, clause: str, inp: Any, detail: Any, size: int = 0, finding: str | None = None) -> None:
         self.spec_failures.append({"clause": clause, "input": inp, "detail": detail, "size": size, "finding": finding})
 
-    def model(self, lines: list[str]) -> list[str] | None:
+    def model(self, lines: list[str], exe: str | None = None) -> list[str] | None:
+        """run the Lean model driver `exe` (default: the property's first driver) on the request lines."""
         if not self.model_available:
             return None
-        return run_driver(lines)
+        return run_driver(lines, exe or self.lean.drivers[0])
 
 
 # ----------------------------------------------------------------------------- verdict
@@ -307,7 +309,7 @@ def main(argv: list[str]) -> int:
         traceback.print_exc()
         return 2
 
-    lean = LeanSide(pid)
+    lean = LeanSide(pid, list(getattr(mod, "DRIVERS", ["drv_geom"])))
     try:
         lean.build()
         if lean.build_ok:
@@ -384,6 +386,8 @@ def main(argv: list[str]) -> int:
         if f["clause"] in seen_clause:
             continue
         seen_clause.add(f["clause"])
+        if violations >= 3:
+            continue
         path = write_replay(pid, seed, n, {"kind": "spec-failure", "clause": f["clause"], "input": f["input"],
                                            "detail": f["detail"]})
         n += 1
